@@ -49,7 +49,7 @@ class LmtpRelayClient(SmtpRelayClient):
     def _deliver(self, result, envelope):
         rcpt_results = dict.fromkeys(envelope.recipients)
         try:
-            self._handle_encoding(envelope)
+            envelope = self._handle_encoding(envelope)
             self._send_envelope(rcpt_results, envelope)
             data_results = self._send_message_data(envelope)
         except SmtpRelayError as e:
